@@ -195,16 +195,19 @@ ReachFrom(p, S) == LET more == UNION {RefsOf(p, TypeNamed(p, n)) : n \in S} \ S 
 Reachable(p) == ReachFrom(p, RootTypes(p))
 
 PrimOf(b) == TypeSchema(b).t
-\* a type's schema is a function of its declaration alone
+\* a type's schema is a function of its declaration alone.  Deprecation: the declaration's own @Deprecated marks the component;
+\* a field's @Deprecated marks that property when the property is an inline schema and can say nothing when it is a bare
+\* reference to another component ("any": a 3.0 reference carries no siblings) - it never marks the referenced component
+FieldDep(f) == IF TypeSchema(f.type).k = "ref" THEN "any" ELSE IF f.deprecated THEN "yes" ELSE "no"
 SchemaOf(p, t) ==
     CASE t.kind = "struct" ->
-            [k |-> "object",
-             props |-> { [name |-> JsonName(f), schema |-> TypeSchema(f.type)] : f \in {x \in Range(t.fields) : ~x.embed /\ JsonVisible(x)} },
+            [k |-> "object", deprecated |-> t.deprecated,
+             props |-> { [name |-> JsonName(f), schema |-> TypeSchema(f.type), dep |-> FieldDep(f)] : f \in {x \in Range(t.fields) : ~x.embed /\ JsonVisible(x)} },
              required |-> { JsonName(f) : f \in {x \in Range(t.fields) : ~x.embed /\ JsonVisible(x) /\ "required" \in Rules(x.valid)} },
              allOf |-> { BareName(CoreType(f.type)) : f \in {x \in Range(t.fields) : x.embed} }]
-      [] t.kind = "enum" -> [k |-> "enum", t |-> PrimOf(t.base), values |-> {c.value : c \in Range(t.consts)}]
+      [] t.kind = "enum" -> [k |-> "enum", deprecated |-> t.deprecated, t |-> PrimOf(t.base), values |-> {c.value : c \in Range(t.consts)}]
       [] t.kind = "raw" -> [k |-> "raw"]                 \* verbatim declarations (hostile inputs): no schema expectation
-      [] OTHER -> [k |-> "alias", t |-> PrimOf(t.base)]
+      [] OTHER -> [k |-> "alias", deprecated |-> t.deprecated, t |-> PrimOf(t.base)]
 PlainErrorPresent(p) == \E m \in Range(p.methods) : IsApi(m) /\ m.ret # <<>> /\ m.ret[Len(m.ret)] = "error"
 ExpectedComponents(p) == { [name |-> BareName(n), schema |-> SchemaOf(p, TypeNamed(p, n))] : n \in Reachable(p) }
 \* two reachable declarations sharing a bare name collapse into one component key (outside the property's bijection)
